@@ -8,8 +8,8 @@ Strict0 == <<0, 0, 0, 0, 0, 0>>
 W == Wire(kind, lay, post)
 
 \* every concretisation is an octet string
-OctetsOK == kind \in {"msg", "namew", "rdw", "optw"} =>
-                LET w == IF kind \in {"msg", "namew"} THEN W ELSE SpecBytes(lay) IN \A i \in 1..Len(w) : w[i] \in 0..255
+OctetsOK == kind \in {"msg", "namew", "rdw", "optw", "optm"} =>
+                LET w == IF kind \in {"msg", "namew", "optm"} THEN W ELSE SpecBytes(lay) IN \A i \in 1..Len(w) : w[i] \in 0..255
 \* the descriptor determines the input: folding the fault actions over the base gives the state
 DescriptorDeterminesInput == LayOf(kind, base, hist) = lay /\ PostOf(hist) = post /\ nf = Len(hist)
 \* an unfaulted message is accepted under every option vector (M3 is signed: refused without its key;
@@ -43,6 +43,12 @@ FailuresOrdered == kind = "msg" =>
 NameLaw == kind = "namew" =>
     /\ nf = 0 => NameWVerdict(lay, post) = "ok"
     /\ (nf = 1 /\ post[1] = "trunc" /\ post[2] > lay.cur) => NameWVerdict(lay, post) = "err"
+\* an option in the OPT record of a message: the framing is untouched by body faults, so the
+\* reference reader never sees a failure; what it leaves open is the option's own grammar
+OptmLaw == kind = "optm" => LET m == Read(W) IN
+    /\ ~m.short /\ m.qok /\ m.fatal = <<>> /\ m.trail = <<>> /\ Len(m.recs) = 1
+    /\ m.recs[1].lo = OptmCur /\ m.recs[1].hi = OptmCur + Len(OptmRdata(lay))
+    /\ m.recs[1].v = (IF lay.code >= 65001 /\ lay.code <= 65534 THEN "ok" ELSE "free")
 TextLaw == (IsText(kind) /\ nf = 0) => TextVerdict(kind, base, hist) = "ok"
 SpecLaw == (kind \in {"rdw", "optw"} /\ nf = 0) => SpecVerdict(hist) = "ok" /\ lay.len = Len(lay.b)
 =============================================================================
